@@ -7,8 +7,11 @@
      tools/checks/c19.py from the very same generated text).
    * strings are lists of byte codes; `std::stoll` and the tokenizer-based `split_pair` are modelled,
      `std::stod` is an oracle (its outcome travels with the operation).
-   * `static_cast<int64_t>(double)` is modelled on its defined domain only; NaN / inf / |v| >= 2^63 is UB in C++
-     and is an explicit `UB` outcome here. *)
+   * `static_cast<int64_t>(double)` is modelled on its defined domain only (`f2i`, None = UB in C++).  Since the fix
+     0c6dfeb every `::update` first tests `convertible<tscalar>(value_)` (translated kernel `src_convertible`) and
+     throws; the `UB` outcome of `step` is kept in the model and PROVED unreachable (C19_Proofs.step_no_ub).  What is
+     still unguarded: the casts of make_scalar_ (construction from doubles, `make_integer_d`) and value<int64_t>() of a
+     floating-point parameter (`RUB`). *)
 From Coq Require Import ZArith List Bool Floats Uint63.
 From LNGen Require Import Src_numeric Src_parameter Src_parameter_flt Src_configurable.
 Import ListNotations.
@@ -65,6 +68,12 @@ Definition i2f (z : Z) : float :=
   else if 0 <? z then of_uint63 (Uint63.of_Z z)
   else (- of_uint63 (Uint63.of_Z (- z)))%float.
 
+(* convertible<int64_t>(double): finite and lowest <= v < -lowest with lowest = (double)INT64_MIN = -2^63 *)
+Definition dbl_lowest : float := (-0x1p+63)%float.
+Definition conv_i (f : float) : bool :=
+  src_convertible (is_finite f) (PrimFloat.leb dbl_lowest f) (PrimFloat.ltb f (- dbl_lowest)%float).
+
+(* the first statement of both ::update overloads: critical(!convertible<tscalar>(value_)) *)
 (* ---------------------------------------------------------------------------------------------- *)
 (* std::stoll (strtoll, base 10, "C" locale)                                                        *)
 Inductive parse := PInvalid | PRange | PVal (z : Z).
@@ -133,6 +142,13 @@ Inductive storage :=
 
 Inductive result := Ok (s : storage) | Throw | UB.
 
+(* critical(!convertible<tscalar>(value_)) resp. critical(!convertible(value1_) || !convertible(value2_)) in front of
+   the conversion; for every instantiation except double -> int64 `convertible` is the constant of its else branch *)
+Definition guard1 (conv : bool) (r : result) : result := if src_range_noconv conv then Throw else r.
+Definition guard2 (conv1 conv2 : bool) (r : result) : result := if src_pair_noconv conv1 conv2 then Throw else r.
+Definition g1 (r : result) : result := guard1 src_convertible_other r.
+Definition g2 (r : result) : result := guard2 src_convertible_other src_convertible_other r.
+
 (* index of the first occurrence (std::find), = length when absent *)
 Fixpoint find_pos (v : str) (dom : list str) : Z :=
   match dom with
@@ -169,11 +185,19 @@ Definition make (s : storage) : result :=
   match s with
   | SNone => Ok SNone
   | SEnum v dom => upd_enum dom v
-  | SIRange v mn mx c1 c2 => upd_i mn mx c1 c2 v
-  | SFRange v mn mx c1 c2 => upd_f mn mx c1 c2 v
-  | SIPair v1 v2 mn mx c1 c2 c3 => upd_ip mn mx c1 c2 c3 v1 v2
-  | SFPair v1 v2 mn mx c1 c2 c3 => upd_fp mn mx c1 c2 c3 v1 v2
+  | SIRange v mn mx c1 c2 => g1 (upd_i mn mx c1 c2 v)
+  | SFRange v mn mx c1 c2 => g1 (upd_f mn mx c1 c2 v)
+  | SIPair v1 v2 mn mx c1 c2 c3 => g2 (upd_ip mn mx c1 c2 c3 v1 v2)
+  | SFPair v1 v2 mn mx c1 c2 c3 => g2 (upd_fp mn mx c1 c2 c3 v1 v2)
   | SString v => Ok (SString v)
+  end.
+
+(* make_integer(name, min, comp, value, comp, max) called with doubles: make_scalar_ casts the three arguments with
+   static_cast<int64_t> WITHOUT any guard (include/nano/parameter.h) -- outside the repaired path *)
+Definition make_integer_d (v mn mx : float) (c1 c2 : cmp) : result :=
+  match f2i v, f2i mn, f2i mx with
+  | Some v', Some mn', Some mx' => make (SIRange v' mn' mx' c1 c2)
+  | _, _, _ => UB
   end.
 
 (* ---------------------------------------------------------------------------------------------- *)
@@ -225,37 +249,39 @@ Inductive arg :=
 
 Definition step (s : storage) (a : arg) : result :=
   match a, s with
-  | AInt z, SIRange _ mn mx c1 c2 => upd_i mn mx c1 c2 z
-  | AInt z, SFRange _ mn mx c1 c2 => upd_f mn mx c1 c2 (i2f z)
+  | AInt z, SIRange _ mn mx c1 c2 => g1 (upd_i mn mx c1 c2 z)
+  | AInt z, SFRange _ mn mx c1 c2 => g1 (upd_f mn mx c1 c2 (i2f z))
   | AInt _, _ => Throw
-  | AFlt f, SIRange _ mn mx c1 c2 => match f2i f with Some z => upd_i mn mx c1 c2 z | None => UB end
-  | AFlt f, SFRange _ mn mx c1 c2 => upd_f mn mx c1 c2 f
+  | AFlt f, SIRange _ mn mx c1 c2 =>
+      guard1 (conv_i f) (match f2i f with Some z => upd_i mn mx c1 c2 z | None => UB end)
+  | AFlt f, SFRange _ mn mx c1 c2 => g1 (upd_f mn mx c1 c2 f)
   | AFlt _, _ => Throw
-  | AIPair a b, SIPair _ _ mn mx c1 c2 c3 => upd_ip mn mx c1 c2 c3 a b
-  | AIPair a b, SFPair _ _ mn mx c1 c2 c3 => upd_fp mn mx c1 c2 c3 (i2f a) (i2f b)
+  | AIPair a b, SIPair _ _ mn mx c1 c2 c3 => g2 (upd_ip mn mx c1 c2 c3 a b)
+  | AIPair a b, SFPair _ _ mn mx c1 c2 c3 => g2 (upd_fp mn mx c1 c2 c3 (i2f a) (i2f b))
   | AIPair _ _, _ => Throw
   | AFPair a b, SIPair _ _ mn mx c1 c2 c3 =>
-      match f2i a, f2i b with
-      | Some x, Some y => upd_ip mn mx c1 c2 c3 x y
-      | _, _ => UB
-      end
-  | AFPair a b, SFPair _ _ mn mx c1 c2 c3 => upd_fp mn mx c1 c2 c3 a b
+      guard2 (conv_i a) (conv_i b)
+        (match f2i a, f2i b with
+         | Some x, Some y => upd_ip mn mx c1 c2 c3 x y
+         | _, _ => UB
+         end)
+  | AFPair a b, SFPair _ _ mn mx c1 c2 c3 => g2 (upd_fp mn mx c1 c2 c3 a b)
   | AFPair _ _, _ => Throw
   | AStr v _ _ _, SEnum _ dom => upd_enum dom v
   | AStr v _ _ _, SString _ => Ok (SString v)
   | AStr v _ _ _, SIRange _ mn mx c1 c2 =>
-      match stoll v with PVal z => upd_i mn mx c1 c2 z | _ => Throw end
+      match stoll v with PVal z => g1 (upd_i mn mx c1 c2 z) | _ => Throw end
   | AStr v d0 _ _, SFRange _ mn mx c1 c2 =>
-      match d0 with Some f => upd_f mn mx c1 c2 f | None => Throw end
+      match d0 with Some f => g1 (upd_f mn mx c1 c2 f) | None => Throw end
   | AStr v _ _ _, SIPair _ _ mn mx c1 c2 c3 =>
       let '(t1, t2) := split_pair v in
       match stoll t1, stoll t2 with
-      | PVal x, PVal y => upd_ip mn mx c1 c2 c3 x y
+      | PVal x, PVal y => g2 (upd_ip mn mx c1 c2 c3 x y)
       | _, _ => Throw
       end
   | AStr v _ d1 d2, SFPair _ _ mn mx c1 c2 c3 =>
       match d1, d2 with
-      | Some x, Some y => upd_fp mn mx c1 c2 c3 x y
+      | Some x, Some y => g2 (upd_fp mn mx c1 c2 c3 x y)
       | _, _ => Throw
       end
   | AStr _ _ _ _, SNone => Throw
@@ -324,17 +350,19 @@ Definition natural_read (s : storage) : rres :=
   end.
 
 (* what an argument denotes once converted to the kind of the parameter it is assigned to
-   (None: no conversion exists -- kind mismatch, parse error or UB) *)
+   (None: no conversion exists -- kind mismatch, parse error or a double that is not convertible to int64) *)
 Definition convert (s : storage) (a : arg) : option rres :=
   match a, s with
   | AInt z, SIRange _ _ _ _ _ => Some (RI z)
   | AInt z, SFRange _ _ _ _ _ => Some (RF (i2f z))
-  | AFlt f, SIRange _ _ _ _ _ => option_map RI (f2i f)
+  | AFlt f, SIRange _ _ _ _ _ => if conv_i f then option_map RI (f2i f) else None
   | AFlt f, SFRange _ _ _ _ _ => Some (RF f)
   | AIPair a b, SIPair _ _ _ _ _ _ _ => Some (RIP a b)
   | AIPair a b, SFPair _ _ _ _ _ _ _ => Some (RFP (i2f a) (i2f b))
   | AFPair a b, SIPair _ _ _ _ _ _ _ =>
-      match f2i a, f2i b with Some x, Some y => Some (RIP x y) | _, _ => None end
+      if conv_i a && conv_i b
+      then match f2i a, f2i b with Some x, Some y => Some (RIP x y) | _, _ => None end
+      else None
   | AFPair a b, SFPair _ _ _ _ _ _ _ => Some (RFP a b)
   | AStr v _ _ _, SEnum _ _ => Some (RS v)
   | AStr v _ _ _, SString _ => Some (RS v)
